@@ -2,7 +2,7 @@
    fails to compile if Props/C12.v is weakened, renamed or given other hypotheses. *)
 From Coq Require Import SpecFloat.
 Require Import Base Value Float PrintOptions ParseOptions Reader Scan Num Parser DatumProofs DepthProofs.
-Require Import ReaderProofs TokenProofs RoundtripProofs TriviaProofs ElispRoundtrip ElispTrivia PositionProofs SpanProofs FuelProofs FloatFuel CrossProofs SourcesAgree.
+Require Import ReaderProofs TokenProofs RoundtripProofs TriviaProofs ElispRoundtrip ElispTrivia PositionProofs SpanProofs FuelProofs FloatFuel CrossProofs SourcesAgree ValidTextProofs.
 Require Import Lexpr.Props.C12.
 
 Check (C12_four_ways :
@@ -91,6 +91,13 @@ Check (C12_iterate_slice_stream :
   Forall2 (rpres eq)
     (iterate_values ro alpha fast std_parse (fuel_for (bytes_events s)) n (init_state SrcSlice (bytes_events s)))
     (iterate_values ro alpha fast std_parse (fuel_for (bytes_events s)) n (init_state SrcIo (bytes_events s)))).
+
+Check (C12_iterate_str_slice_on_text :
+  forall W, Utf8.utf8_valid W = true -> forall ro alpha fast std_parse n,
+  iterate_values ro alpha fast std_parse (fuel_for (bytes_events W)) n (init_state SrcStr (bytes_events W)) =
+  iterate_values ro alpha fast std_parse (fuel_for (bytes_events W)) n (init_state SrcSlice (bytes_events W)) /\
+  iterate_datums ro alpha fast std_parse (fuel_for (bytes_events W)) n (init_state SrcStr (bytes_events W)) =
+  iterate_datums ro alpha fast std_parse (fuel_for (bytes_events W)) n (init_state SrcSlice (bytes_events W))).
 
 Check (C12_closer_consumed :
   let inp := bytes_events (s2b "1 2 ) 3") in
